@@ -446,6 +446,69 @@ def check_pinned(out):
                  {"new_failures": new[:5], "no_longer_failing": gone[:5], "n_new": len(new), "n_gone": len(gone)})
 
 
+def check_nested_and_body_frames(out, rng, rounds):
+    """registrations whose links do not hang below Earth / EME2000: an orbit-attached frame built from a state that is itself
+    expressed in another orbit-attached frame, and a local orbital frame whose parent is a body-centred frame (frame name !=
+    orientation name).  Every pair of frames must stay convertible along the existing links, with the chained offsets."""
+    import numpy as np
+    from beyond.dates import Date
+    from beyond.orbits import StateVector
+    from beyond.env.solarsystem import get_frame as solar_frame
+    tag = f"N{rng.randrange(10**6)}"
+    for i in range(rounds):
+        date = Date(2020, 5, 17, 12, 0, 0)
+        tpv = np.array([6878137.0 + rng.uniform(-1e5, 1e5), rng.uniform(-1e4, 1e4), rng.uniform(-1e4, 1e4), rng.uniform(-5, 5), 5400.0, 5300.0])
+        rel = np.array([rng.uniform(-500, 500) for _ in range(3)] + [rng.uniform(-0.5, 0.5) for _ in range(3)])
+        tname, cname = f"{tag}T{i}", f"{tag}C{i}"
+
+        def attempt(fam, what, fn, expected, tol):
+            out.count(key=(fam, i), kind=fam)
+            try:
+                got = np.asarray(fn(), dtype=float)
+            except Exception as e:  # noqa: BLE001
+                out.fail(fam, what + " (raises)", {"target": tpv.tolist(), "rel": rel.tolist()}, observed=repr(e), expected=list(map(float, expected)))
+                return
+            if np.abs(got - expected).max() > tol:
+                out.fail(fam, what, {"target": tpv.tolist(), "rel": rel.tolist()}, observed=got.tolist(), expected=list(map(float, expected)))
+
+        target = StateVector(tpv, date, "cartesian", "EME2000")
+        target.as_frame(tname)
+        chaser_rel = StateVector(rel, date, "cartesian", tname)
+        chaser_rel.as_frame(cname)
+        origin = StateVector(np.zeros(6), date, "cartesian", cname)
+        attempt("nested-orbit-frame", "origin of a frame attached to a state given in another orbit-attached frame is not target + relative state",
+                lambda: origin.copy(frame="EME2000"), tpv + rel, 1e-4)
+        attempt("nested-orbit-frame", "target seen from the nested frame is not minus the relative state", lambda: target.copy(frame=cname), -rel, 1e-4)
+        probe = StateVector(tpv + [10.0, 20.0, 30.0, 0, 0, 0], date, "cartesian", "EME2000")
+        attempt("nested-orbit-frame", "EME2000 -> nested -> target differs from EME2000 -> target",
+                lambda: probe.copy(frame=cname).copy(frame=tname), np.asarray(probe.copy(frame=tname), dtype=float), 1e-4)
+        # local orbital frame below a body-centred parent
+        moon = solar_frame("Moon")
+        lpv = np.array([1837.4e3 + rng.uniform(0, 5e4), 12.0e3, -40.0e3, 15.0, 1150.0 + rng.uniform(-50, 50), 1170.0])
+        for ori in ("QSW", "TNW"):
+            lname = f"{tag}L{i}{ori}"
+            lro = StateVector(lpv, date, "cartesian", "Moon")
+            try:
+                lro.as_frame(lname, orientation=ori, parent=moon)
+            except Exception as e:  # noqa: BLE001
+                out.fail("lof-body-parent", "cannot attach a local orbital frame below a body-centred parent frame", {"lro": lpv.tolist(), "orientation": ori}, observed=repr(e))
+                continue
+            delta = np.array([10.0, 20.0, 30.0, 0.0, 0.0, 0.0])
+            r, v = lpv[:3], lpv[3:]
+            w = np.cross(r, v) / np.linalg.norm(np.cross(r, v))
+            if ori == "QSW":
+                a1 = r / np.linalg.norm(r); a2 = np.cross(w, a1); a3 = w
+            else:
+                a1 = v / np.linalg.norm(v); a3 = w; a2 = np.cross(w, a1)
+                a1, a2, a3 = a1, a2, a3   # T, N, W
+            exp = np.array([delta[:3] @ a1, delta[:3] @ a2, delta[:3] @ a3])
+            probe = StateVector(lpv + delta, date, "cartesian", "Moon")
+            attempt("lof-body-parent", f"Moon frame -> {ori} frame attached below it is wrong", lambda: probe.copy(frame=lname)[:3], exp, 1e-6)
+            relsv = StateVector(np.concatenate([exp, np.zeros(3)]), date, "cartesian", lname)
+            attempt("lof-body-parent", f"{ori} frame attached below the Moon frame -> Moon frame is wrong", lambda: relsv.copy(frame="Moon")[:3], (lpv + delta)[:3], 1e-5)
+            attempt("lof-body-parent", "an unrelated pre-existing frame (ITRF) cannot reach the new frame", lambda: lro.copy(frame="ITRF").copy(frame=lname)[:3], np.zeros(3), 1e-3)
+
+
 def oracle(ctx, widened):
     out = Outcome()
     rng = ctx.rng
@@ -481,6 +544,7 @@ def oracle(ctx, widened):
         n = rng.randint(2, 12)
         check_new_registration(out, rng, n, random_forest(rng, n))
     check_frame_registry(out, rng, 12 if big else 5)
+    check_nested_and_body_frames(out, rng, 6 if big else 2)
     out.sample({"history": [(0, 1), (1, 2), (3, 2)], "checked": "all pairs: valid simple chain == BFS distance, unconnected -> ValueError"})
     return out
 
